@@ -59,7 +59,8 @@ Extend == /\ phase = "build" /\ Len(lay) < MaxM
           /\ UNCHANGED <<phase, C, now, hist>>
 
 ShardTable(c, t) == [s \in Sizes |-> Shard(c, s, 0, t)]
-Version(c, t)    == [to |-> 0, zs |-> Zones(c), sh |-> ShardTable(c, t)]
+Version(c, t)    == [to |-> 0, zs |-> Zones(c), sh |-> ShardTable(c, t),
+                     c |-> [mem |-> c.mem, ro |-> c.ro, reg |-> c.reg, rots |-> c.rots]]   \* content, for counterexamples
 
 (* zone assignments up to renaming of zones: zones are numbered in the     *)
 (* order of their first instance                                           *)
@@ -124,7 +125,7 @@ Running == phase = "run"
 Cur == hist[Len(hist)].sh
 
 (* a failing clause prints the case so that bin/check can concretise it *)
-Cex(name, info) == PrintT(ToJson([cex |-> name, C |-> C, now |-> now, info |-> info])) /\ FALSE
+Cex(name, info) == PrintT(ToJson([cex |-> name, kind |-> "inst", C |-> C, now |-> now, shards |-> Cur, info |-> info])) /\ FALSE
 
 SizeFormula ==
     Running => \A s \in Sizes : SizeOK(Cur[s], C, C.za, s) \/ Cex("SizeFormula", [size |-> s])
@@ -141,12 +142,12 @@ Consistency ==
         LET W == [C EXCEPT !.mem = @ \ {x}]
         IN ConsistencyApplies(C, W, C.za) =>
              \A s \in Sizes : ConsistencyOK(Cur[s], Shard(W, s, 0, now))
-                                \/ Cex("Consistency", [size |-> s, without |-> x])
+                                \/ Cex("Consistency", [size |-> s, without |-> x, other |-> Shard(W, s, 0, now)])
 
 (* versions that were current at some moment of the window of (L, now) and *)
 (* - with zone-awareness - had the zones of the current ring                *)
 InWindow(v, L) == /\ hist[v].to = 0 \/ hist[v].to >= now - L
-                  /\ C.za => hist[v].zs = Zones(C)
+                  /\ C.za /\ ZoneChangesExempt => hist[v].zs = Zones(C)
 (* look-back periods: one per number of changes covered, plus the one that *)
 (* reaches back to the registration of the initial instances               *)
 Lookbacks == (1..(now - T0 + 1)) \cup {now - 1}
@@ -155,7 +156,7 @@ LookbackSuperset ==
     Running => \A s \in Sizes : \A L \in Lookbacks :
         LET past == {hist[v].sh[s] : v \in {w \in 1..Len(hist) : InWindow(w, L)}}
         IN LookbackOK(Shard(C, s, L, now), past, C.mem)
-              \/ Cex("LookbackSuperset", [size |-> s, L |-> L, hist |-> hist])
+              \/ Cex("LookbackSuperset", [size |-> s, L |-> L, lb |-> Shard(C, s, L, now), hist |-> hist])
 
 (* sanity of the model itself: look-back 0 through the look-back entry is the plain shard *)
 TypeOK == Running => /\ C.mem # {} /\ C.mem \subseteq Universe
